@@ -554,10 +554,6 @@ theorem Fr.slideLoop : ∀ (fuel : Nat) (f : FUid) (h : HUid) (acc : List Key), 
 
 theorem Fr.slide (fuel : Nat) (f : FUid) (h : HUid) (hG : G f) : Pres (Fr G) (slide fuel f h) := Fr.slideLoop fuel f h [] hG
 
-/-- the keys `slide` hands back (forked heads, the merged parent head) belong to the flow that was slid -/
-def SlideKeysOwn : Prop :=
-  ∀ (fuel : Nat) (f : FUid) (h : HUid) (s s' : VM) (r : List Key), slide fuel f h s = .ok r s' → ∀ k ∈ r, k.1 = f
-
 theorem Pres.bind_ret {R : VM → VM → Prop} (po : PreOrd R) {α β : Type} {x : M α} {f : α → M β} (P : α → Prop)
     (hx : Pres R x) (hP : ∀ s a s', x s = .ok a s' → P a) (hf : ∀ a, P a → Pres R (f a)) : Pres R (x >>= f) := by
   refine ⟨fun s => ?_⟩
